@@ -391,6 +391,10 @@ def judge(ctx, module, cfg, pairs, signature_of, prefix=None, shards=NCPU, timeo
     for cfull in sorted(fails):
       c, _, pos = cfull.partition('@')
       pos = int(pos) if pos else 0
+      if c.startswith('G'):
+        # clauses about behaviour beyond the listed properties: reported in the evidence, never a violation
+        g = ctx.extra.setdefault('growth_clause_failures', {})
+        g[c] = g.get(c, 0) + 1
       if c.startswith(prefix) or c.startswith('TRACE.'):
         sig = signature_of(recipe, tr, c, pos) if nargs >= 4 else signature_of(recipe, tr, c)
         ctx.add_violation(c, sig, tr, dict(recipe, failing_event=pos))
